@@ -88,6 +88,21 @@ def inputs_for(bpt, tier):
                         (("scaffold_1", pv.scaffold_rows(style, "scaffold_1", (4 * e, 8 * e + 4, c), ((("G", 3 * e, "scaffold"),), (("G", g2, "scaffold"),)), st)),)
                     )
                     GAP_PIECE_INPUTS.add(out[-1])
+    # scaffolds that begin (and end) with a gap: Pretext coordinates count the leading gap
+    for style in ("tpf", "fasta"):
+        for lead, trail in ((1, 0), (3 * e + 2, 0), (2, 3)):
+            for st in ((1, 1), (1, -1)) if style == "tpf" else ((1, 1),):
+                rows = [("G", lead, "scaffold")]
+                pos = lead
+                for i, ln in enumerate((8 * e + 4, 2 * e + 1)):
+                    if i:
+                        rows.append(("G", 2, "scaffold"))
+                        pos += 2
+                    rows.append(("F", f"scaffold_1.c{i + 1}", 1, ln, st[i]) if style == "tpf" else ("F", "scaffold_1", pos + 1, pos + ln, 1))
+                    pos += ln
+                if trail:
+                    rows.append(("G", trail, "scaffold"))
+                out.append((("scaffold_1", tuple(rows)),))
     _ = scale
     return out
 
@@ -198,3 +213,4 @@ class C02(Check):
 CHECK = C02()
 # scope added in later rounds, kept in the evidence text
 CHECK.rule += ' Gap-piece family: contigs 4E / 8E+4 / {1,E-1,E} with a 3E gap after the first and a short gap before the last, explored with every orientation pattern of the three pieces (separate and joined).'
+CHECK.rule += ' Inputs that begin (and end) with a gap row (leading gap 1, 3E+2 or 2 bases).'
